@@ -250,6 +250,15 @@ fn check_mode<S: anstream::stream::RawStream>(mode: &str, s: &AutoStream<S>, ter
 
 const SENTINEL: &[u8] = b"\x00<into_inner sentinel>";
 
+/// What a fault-free writer behind a pass-through stream must hold once `consumed` input bytes
+/// have been reported consumed, computed without any stream: the input prefix itself.  (Used next
+/// to the lock-step reference, which for some writer kinds is the same type as the writer under
+/// test and would share a type-specific defect.  Not used for the stripping modes: a stream-free
+/// expectation there would be the one-shot stripped form, and chunk-invariance is C03's business.)
+fn independent_expectation(_mode: &str, input: &[u8], consumed: usize) -> Vec<u8> {
+    input[..consumed.min(input.len())].to_vec()
+}
+
 fn tmp_path(t: &Trace, tag: &str) -> std::path::PathBuf {
     let dir = std::path::PathBuf::from(&format!("{}/target/tmp", crate::report::verif_root()));
     let _ = std::fs::create_dir_all(&dir);
@@ -374,6 +383,15 @@ pub fn execute(t: &Trace, stats: &mut Stats, record: bool) -> Outcome {
                 }
                 result?;
                 // (after a failed write_all / write! the amount written is unspecified)
+                if !lk.failed_all && !strips(mode) {
+                    let want = independent_expectation(mode, &t.input, lk.c);
+                    if got != want {
+                        return Err(viol(
+                            "bytes-mismatch",
+                            format!("{} input bytes reported consumed; the writer holds {:?}, expected {:?}", lk.c, lossy(&got), lossy(&want)),
+                        ));
+                    }
+                }
                 if !lk.failed_all && got != ref_vec {
                     return Err(viol(
                         "bytes-mismatch",
@@ -402,6 +420,15 @@ pub fn execute(t: &Trace, stats: &mut Stats, record: bool) -> Outcome {
                     }
                     let got = s.into_inner().as_bytes().to_vec();
                     result?;
+                    if !lk.failed_all && !strips(mode) {
+                        let want = independent_expectation(mode, &t.input, lk.c);
+                        if got != want {
+                            return Err(viol(
+                                "bytes-mismatch",
+                                format!("{} input bytes reported consumed; the writer holds {:?}, expected {:?}", lk.c, lossy(&got), lossy(&want)),
+                            ));
+                        }
+                    }
                     if !lk.failed_all && got != ref_bytes {
                         return Err(viol(
                             "bytes-mismatch",
@@ -445,6 +472,15 @@ pub fn execute(t: &Trace, stats: &mut Stats, record: bool) -> Outcome {
                 let _ = std::fs::remove_file(&path);
                 result?;
                 // (after a failed write_all / write! the amount written is unspecified)
+                if !lk.failed_all && !strips(mode) {
+                    let want = independent_expectation(mode, &t.input, lk.c);
+                    if got != want {
+                        return Err(viol(
+                            "bytes-mismatch",
+                            format!("{} input bytes reported consumed; the writer holds {:?}, expected {:?}", lk.c, lossy(&got), lossy(&want)),
+                        ));
+                    }
+                }
                 if !lk.failed_all && got != ref_vec {
                     return Err(viol(
                         "bytes-mismatch",
